@@ -20,6 +20,12 @@ impl Instant {
 
         Self { time }
     }
+
+    pub fn checked_add(self, rhs: Duration) -> Option<Self> {
+        Some(Self {
+            time: self.time.checked_add(rhs)?,
+        })
+    }
 }
 
 impl std::ops::Add<Duration> for Instant {
